@@ -182,6 +182,29 @@ def gen_h264(rng):
     return r
 
 
+# ---------------------------------------------------------------- AudioSpecificConfig
+def gen_sfi(rng):
+    return rng.choice(list(range(13)) + [15, 15, 15])
+
+
+def gen_asc(rng):
+    r = {}
+    hier = rng.choice([0, 0, 1, 2])
+    r[K(2)] = hier
+    r[K(1)] = rng.choice([1, 2, 2, 2, 3, 4]) if hier else rng.choice([1, 2, 2, 2, 3, 4, 32, 33, 34])
+    r[K(3)] = gen_sfi(rng)
+    r[K(4)] = rng.choice([0, 1, 44100, 48000, rng.randrange(2 ** 24), ue_sample(rng, 2 ** 24 - 1)])
+    r[K(5)] = rng.randint(1, 7)
+    r[K(6)] = flag(rng)
+    r[K(7)] = gen_sfi(rng)
+    r[K(8)] = rng.choice([1, 44100, 48000, 96000, rng.randrange(1, 2 ** 24), ue_sample(rng, 2 ** 24 - 2) + 1])
+    r[K(9)] = flag(rng, 0.6)
+    r[K(10)] = flag(rng, 0.7)
+    r[K(11)] = flag(rng)
+    r[K(12)] = flag(rng)
+    return r
+
+
 def rec_val(r):
     return [[k, v] for k, v in sorted(r.items())]
 
@@ -252,6 +275,28 @@ def run(ck):
     garb += [bytes(rng.randrange(256) for _ in range(rng.randint(0, 30))) for _ in range(1000 if T else 300)]
     ck.stream("h264_malformed", garb, "C15_h264_bytes", "h264b", "C15_total_ok", nontrivial=lambda c: len(c) > 4,
               sig=sig_of("h264-malformed"), sample=2)
+    # ---- AudioSpecificConfig
+    n = 8000 if T else 1200
+    recs = [gen_asc(rng) for _ in range(n)]
+    cfgs = emit_all(ck, "C15_asc_emit", recs)
+    cases = [[rec_val(r), b] for r, b in zip(recs, cfgs) if b is not None]
+    if len(cases) < n * 0.98:
+        ck.fail("asc_records", "generator", "", note="generated ASC records not well-ranged")
+    ck.stream("asc_records", cases, "C15_asc_run", "asc", "C15_asc_ok", sig=sig_of("asc-record"))
+    valid = [c[1] for c in cases]
+    garb = [mutate(rng, rng.choice(valid)) for _ in range(8000 if T else 1200)]
+    garb += [bytes(rng.randrange(256) for _ in range(rng.randint(0, 24))) for _ in range(4000 if T else 600)]
+    # ALS (AOT 36) configurations, well-formed and damaged
+    for _ in range(1500 if T else 300):
+        bits = "11111" + format(36 - 32, "06b") + format(rng.randrange(13), "04b") + format(rng.randrange(8), "04b") + "00000"
+        body = (b"" if rng.random() < 0.5 else bytes(3)) + b"ALS\0" + rng.choice([bytes(4), (48000).to_bytes(4, "big"), bytes(rng.randrange(256) for _ in range(4))]) \
+            + bytes(4) + rng.randrange(65536).to_bytes(2, "big") + bytes(rng.randrange(256) for _ in range(rng.randint(0, 6)))
+        allb = bits + "".join(format(x, "08b") for x in body)
+        allb += "0" * (-len(allb) % 8)
+        cfg = bytes(int(allb[i:i + 8], 2) for i in range(0, len(allb), 8))
+        garb.append(cfg if rng.random() < 0.6 else mutate(rng, cfg))
+    ck.stream("asc_malformed", garb, "C15_asc_bytes", "ascb", "C15_asc_total_ok", nontrivial=lambda c: len(c) > 1,
+              sig=sig_of("asc-malformed"), sample=2)
     # ---- emulation prevention and the float quotient on their own
     esc = [bytes(rng.choice([0, 0, 0, 1, 2, 3, 3, 4, 255]) for _ in range(rng.randint(0, 12))) for _ in range(4000 if T else 800)]
     ck.stream("unescape", esc, "C15_unescape", "unescape", None, nontrivial=lambda c: b"\0\0\3" in c,
